@@ -4,6 +4,7 @@ import (
 	"encoding/hex"
 	"net"
 	"slices"
+	"sync"
 	"sync/atomic"
 	"time"
 
@@ -46,7 +47,11 @@ type session struct {
 	stream          *stream.Stream
 	muxer           *muxer
 	reader          *stream.Reader
-	onUnreadHook    func()
+
+	// held from the registration in the muxer until initialize() has finished:
+	// the muxer may close the session as soon as it knows it
+	initMutex    sync.Mutex
+	onUnreadHook func()
 }
 
 func (s *session) initialize(ctx *gin.Context) error {
@@ -103,6 +108,9 @@ func (s *session) initialize(ctx *gin.Context) error {
 
 	s.muxer = muxer
 
+	s.initMutex.Lock()
+	defer s.initMutex.Unlock()
+
 	muxerFormats, err := s.muxer.addSession(s)
 	if err != nil {
 		s.path.RemoveReader(defs.PathRemoveReaderReq{Author: s})
@@ -147,6 +155,9 @@ func (s *session) Close() {
 }
 
 func (s *session) close2(err error) {
+	s.initMutex.Lock()
+	defer s.initMutex.Unlock()
+
 	s.stream.RemoveReader(s.reader)
 
 	s.path.RemoveReader(defs.PathRemoveReaderReq{Author: s})
